@@ -16,6 +16,8 @@ import (
 	"sync"
 	"testing"
 	"time"
+
+	hraft "github.com/hashicorp/raft"
 )
 
 type vC17Cmd struct {
@@ -23,6 +25,7 @@ type vC17Cmd struct {
 	Node int      `json:"node"`           // pin/unpin/add/rm: issuing member relative to the leader; restart/snap: relative target
 	Peer int      `json:"peer"`           // add/rm: absolute node slot
 	Slow bool     `json:"slow,omitempty"` // add: the joiner's FSM is held back (entries stay queued) while it waits for sync
+	Lag  int      `json:"lag,omitempty"`  // add: the joiner RECEIVES only a prefix of the log while it waits for sync: 1 nothing, 2 one entry, 3 half of what precedes its own add entry, 4 all but its own add entry
 	Pin  *vC01Pin `json:"pin,omitempty"`  // pin unpin
 }
 
@@ -76,7 +79,11 @@ func vC17Gen(r *vRand) vC17Case {
 			c.Cmds = append(c.Cmds, vC17Cmd{Op: "unpin", Node: at, Pin: &vC01Pin{Cid: r.intn(ncids), Type: 2, MaxDepth: -1, Update: -1, Ref: -1}})
 		case x < 68:
 			p := pick(r.chance(25)) // mostly a peer that is not a member; sometimes a present one (no-op)
-			c.Cmds = append(c.Cmds, vC17Cmd{Op: "add", Node: at, Peer: p, Slow: r.chance(15)})
+			ac := vC17Cmd{Op: "add", Node: at, Peer: p, Slow: r.chance(15)}
+			if !ac.Slow && r.chance(15) {
+				ac.Lag = 1 + r.intn(4)
+			}
+			c.Cmds = append(c.Cmds, ac)
 			member[p] = true
 		case x < 82:
 			p := pick(!r.chance(25)) // mostly a member; sometimes an absent peer (no-op)
@@ -95,6 +102,131 @@ func vC17Gen(r *vRand) vC17Case {
 	return c
 }
 
+// vC17GateTrans: what a joiner's Raft reads its RPCs from. Entry-carrying AppendEntries (the leader sends one entry per RPC: MaxAppendEntries = 1)
+// and InstallSnapshot pass only up to a scripted log index; the rest is held, in order, until the limit is raised. Heartbeats and votes
+// always pass. Every RPC handed to Raft gets a buffered response channel, so the joiner never blocks on a sender that has timed out.
+type vC17GateTrans struct {
+	*hraft.InmemTransport
+	out   chan hraft.RPC
+	mu    sync.Mutex
+	limit uint64 // entries with an index above it are held
+	held  []hraft.RPC
+	kick  chan struct{}
+	stop  chan struct{}
+}
+
+const vC17GateOpen = ^uint64(0)
+
+func vC17NewGate(t *hraft.InmemTransport, limit uint64) *vC17GateTrans {
+	g := &vC17GateTrans{InmemTransport: t, out: make(chan hraft.RPC), limit: limit, kick: make(chan struct{}, 1), stop: make(chan struct{})}
+	go g.pump()
+	return g
+}
+
+func (g *vC17GateTrans) Consumer() <-chan hraft.RPC { return g.out }
+
+func (g *vC17GateTrans) passes(rpc hraft.RPC) bool {
+	switch c := rpc.Command.(type) {
+	case *hraft.AppendEntriesRequest:
+		for _, e := range c.Entries {
+			if e.Index > g.limit {
+				return false
+			}
+		}
+		return true
+	case *hraft.InstallSnapshotRequest:
+		return g.limit == vC17GateOpen
+	}
+	return true
+}
+
+func (g *vC17GateTrans) forward(rpc hraft.RPC) {
+	sub := make(chan hraft.RPCResponse, 1)
+	orig := rpc.RespChan
+	rpc.RespChan = sub
+	select {
+	case g.out <- rpc:
+	case <-g.stop:
+		return
+	}
+	go func() {
+		select {
+		case r := <-sub:
+			select {
+			case orig <- r:
+			case <-time.After(3 * time.Second): // the sender gave up
+			}
+		case <-g.stop:
+		}
+	}()
+}
+
+func (g *vC17GateTrans) pump() {
+	in := g.InmemTransport.Consumer()
+	for {
+		select {
+		case rpc := <-in:
+			g.mu.Lock()
+			if !g.passes(rpc) {
+				g.held = append(g.held, rpc)
+				g.mu.Unlock()
+				continue
+			}
+			g.mu.Unlock()
+			g.forward(rpc)
+		case <-g.kick:
+			for {
+				g.mu.Lock()
+				if len(g.held) == 0 || !g.passes(g.held[0]) {
+					g.mu.Unlock()
+					break
+				}
+				rpc := g.held[0]
+				g.held = g.held[1:]
+				g.mu.Unlock()
+				g.forward(rpc)
+			}
+		case <-g.stop:
+			return
+		}
+	}
+}
+
+func (g *vC17GateTrans) setLimit(l uint64) {
+	g.mu.Lock()
+	g.limit = l
+	g.mu.Unlock()
+	select {
+	case g.kick <- struct{}{}:
+	default:
+	}
+}
+
+// only when the rig is torn down: a gate that stops pumping cuts its node off
+func (g *vC17GateTrans) close() { close(g.stop) }
+
+// the lagging-joiner shape: a cluster of two or three with several pins committed; a new peer is admitted at the leader or at a
+// follower while it has received nothing / one entry / half / all but its own add entry of the log; then everybody catches up
+func vC17GenLag(r *vRand, lag int) vC17Case {
+	c := vC17Case{N0: 2 + r.intn(2), Trail: 64}
+	ncids := 3
+	for i := 0; i < 3+r.intn(4); i++ {
+		if i > 1 && r.chance(25) {
+			c.Cmds = append(c.Cmds, vC17Cmd{Op: "unpin", Node: r.intn(2), Pin: &vC01Pin{Cid: r.intn(ncids), Type: 2, MaxDepth: -1, Update: -1, Ref: -1}})
+		} else {
+			c.Cmds = append(c.Cmds, vC17Cmd{Op: "pin", Node: r.intn(2), Pin: vC01GenPin(r, ncids, 0, false)})
+		}
+	}
+	c.Cmds = append(c.Cmds, vC17Cmd{Op: "add", Node: r.intn(2), Peer: c.N0, Lag: lag})
+	c.Cmds = append(c.Cmds, vC17Cmd{Op: "sync"})
+	c.Cmds = append(c.Cmds, vC17Cmd{Op: "pin", Node: r.intn(3), Pin: vC01GenPin(r, ncids, 0, false)})
+	if r.chance(50) {
+		c.Cmds = append(c.Cmds, vC17Cmd{Op: "add", Node: r.intn(3), Peer: c.N0 + 1, Lag: 1 + r.intn(4)})
+	}
+	c.Cmds = append(c.Cmds, vC17Cmd{Op: "sync"})
+	return c
+}
+
 type vC17X struct {
 	Kind   string `json:"k"` // add rm peers
 	Peer   int    `json:"p"`
@@ -102,6 +234,7 @@ type vC17X struct {
 	Landed bool   `json:"landed"`
 	Node   int    `json:"n"`
 	Peers  []int  `json:"peers"`
+	Self   bool   `json:"self"` // ready: the joiner listed itself in its own Peers() when WaitForSync returned
 }
 
 type vC17Result struct {
@@ -162,6 +295,17 @@ func vC17Run(c vC17Case) (res vC17Result) {
 	ctx := context.Background()
 	rig := vC01NewRig(vC17Slots, uint64(c.Trail))
 	rig.wflTimeout = 2500 * time.Millisecond
+	for _, cmd := range c.Cmds {
+		if cmd.Op == "add" && cmd.Lag > 0 {
+			rig.maxAppend = 1 // one entry per AppendEntries: what the joiner's gate lets through is counted in entries
+		}
+	}
+	var gates []*vC17GateTrans
+	defer func() {
+		for _, g := range gates {
+			g.close()
+		}
+	}()
 	if err := rig.bootstrap(c.N0); err != nil {
 		res.skipped = "bootstrap: " + err.Error()
 		return
@@ -279,20 +423,46 @@ func vC17Run(c vC17Case) (res vC17Result) {
 				}
 				j = rig.nodes[k]
 			}
+			var gate *vC17GateTrans
 			if !was {
 				// a joiner: a running peer with no configuration of its own (as a staging peer)
 				if cmd.Slow {
 					rig.closeGate(k)
+				} else if cmd.Lag >= 1 && cmd.Lag <= 4 && len(before) >= 2 {
+					// a lagging joiner: replication to it is still under way while it waits for sync. The add commits without it
+					// (two or more members already); it receives nothing until the script says how much
+					rig.wrapTrans = func(n *vC01Node, t *hraft.InmemTransport) hraft.Transport {
+						if n != j {
+							return t
+						}
+						gate = vC17NewGate(t, 0)
+						gates = append(gates, gate)
+						return gate
+					}
 				}
-				if err := rig.start(j); err != nil {
+				err := rig.start(j)
+				rig.wrapTrans = nil
+				if err != nil {
 					res.skipped = "start joiner: " + err.Error()
 					return
 				}
 			}
 			err := at.cc.AddPeer(ctx, j.id)
 			idxAtReturn := rig.maxIdx()
-			after, oka := peersAfter()
+			var after []int
+			oka := false
+			if gate != nil {
+				// the members cannot all be caught up: the joiner is held back. The configuration is the leader's
+				if l := rig.leader(10 * time.Second); l != nil {
+					after, oka = vC17Peers(rig, l)
+				}
+			} else {
+				after, oka = peersAfter()
+			}
 			if !oka {
+				if gate != nil {
+					gate.setLimit(vC17GateOpen)
+				}
 				rig.openGate(k)
 				res.skipped = "no leader after AddPeer"
 				return
@@ -308,21 +478,76 @@ func vC17Run(c vC17Case) (res vC17Result) {
 			}
 			if !was && !landed {
 				rig.openGate(k)
+				if gate != nil {
+					gate.setLimit(vC17GateOpen)
+				}
 				rig.stop(j)
 				j.removed = true
+			}
+			selfListed := func() bool {
+				ps, ok := vC17Peers(rig, j)
+				return ok && vC17Has(ps, k)
+			}
+			if gate != nil && (!landed || err != nil) {
+				gate.setLimit(vC17GateOpen)
+				gate = nil
 			}
 			if !was && landed && err == nil {
 				// the joiner waits to be in sync, as Cluster.Join / the consensus bootstrap do
 				done := make(chan error, 1)
 				go func() { done <- j.cc.WaitForSync(ctx) }()
 				var werr error
-				if cmd.Slow {
+				if gate != nil {
+					res.stats["lag_join"]++
+					// the joiner's add entry is the last entry of the leader's log (nothing else was submitted meanwhile)
+					own := uint64(0)
+					if l := rig.leader(10 * time.Second); l != nil {
+						own = l.raft.LastIndex()
+					}
+					lim := uint64(0)
+					switch cmd.Lag {
+					case 2:
+						lim = 1
+					case 3:
+						lim = (own - 1) / 2
+					case 4:
+						lim = own - 1
+					}
+					if own == 0 {
+						lim = 0
+					} else if lim >= own {
+						lim = own - 1
+					}
+					gate.setLimit(lim)
+					for dl := time.Now().Add(5 * time.Second); j.raft.LastIndex() < lim && time.Now().Before(dl); {
+						time.Sleep(3 * time.Millisecond)
+					}
+					res.stats[fmt.Sprintf("lag_join_received_%d_of_%d", j.raft.LastIndex(), own)]++
+					// it has not received its own add entry: WaitForSync must keep waiting (short, bounded wait)
+					select {
+					case werr = <-done:
+						if werr == nil {
+							rig.observeReady(j, idxAtReturn) // ready on a prefix of the log: recorded as observed
+							xs = append(xs, vC17X{Kind: "ready", Node: k, Self: selfListed()})
+							res.stats["ready_while_lagging"]++
+						}
+						gate.setLimit(vC17GateOpen)
+					case <-time.After(1500 * time.Millisecond):
+						gate.setLimit(vC17GateOpen)
+						werr = <-done
+						if werr == nil {
+							rig.observeReady(j, idxAtReturn)
+							xs = append(xs, vC17X{Kind: "ready", Node: k, Self: selfListed()})
+						}
+					}
+				} else if cmd.Slow {
 					res.stats["slow_join"]++
 					// the joiner's FSM has applied nothing yet: WaitForSync is expected to keep waiting (short, bounded wait)
 					select {
 					case werr = <-done:
 						if werr == nil {
 							rig.observeReady(j, idxAtReturn) // ready while its FSM is behind: recorded as observed
+							xs = append(xs, vC17X{Kind: "ready", Node: k, Self: selfListed()})
 							res.stats["ready_while_held"]++
 						}
 						rig.openGate(k)
@@ -331,12 +556,14 @@ func vC17Run(c vC17Case) (res vC17Result) {
 						werr = <-done
 						if werr == nil {
 							rig.observeReady(j, idxAtReturn)
+							xs = append(xs, vC17X{Kind: "ready", Node: k, Self: selfListed()})
 						}
 					}
 				} else {
 					werr = <-done
 					if werr == nil {
 						rig.observeReady(j, idxAtReturn)
+						xs = append(xs, vC17X{Kind: "ready", Node: k, Self: selfListed()})
 					}
 				}
 				if werr != nil {
@@ -346,6 +573,9 @@ func vC17Run(c vC17Case) (res vC17Result) {
 				}
 			}
 			rig.openGate(k)
+			if gate != nil {
+				gate.setLimit(vC17GateOpen)
+			}
 		case "rm":
 			k := vC01Clamp(cmd.Peer, vC17Slots)
 			j := rig.nodes[k]
@@ -434,6 +664,8 @@ func vC17Run(c vC17Case) (res vC17Result) {
 			xt = append(xt, fmt.Sprintf("XAdd %d %s %s", x.Peer, cqBool(x.Err), cqBool(x.Landed)))
 		case "rm":
 			xt = append(xt, fmt.Sprintf("XRm %d %s %s", x.Peer, cqBool(x.Err), cqBool(x.Landed)))
+		case "ready":
+			xt = append(xt, fmt.Sprintf("XReady %d %s", x.Node, cqBool(x.Self)))
 		default:
 			xt = append(xt, fmt.Sprintf("XPeers %d %s", x.Node, cqListN(x.Peers)))
 		}
@@ -475,8 +707,16 @@ func TestVerifC17(t *testing.T) {
 		}
 	} else {
 		r := newVRand(seed ^ 0x1717)
+		period := 8
+		if n > 200 {
+			period = 24 // each lagging join costs its 1.5 s of bounded waiting
+		}
 		for i := 0; i < n; i++ {
-			cases = append(cases, vC17Gen(r))
+			if i%period == period-1 {
+				cases = append(cases, vC17GenLag(r, 1+(i/period)%4)) // boundary stream: the lagging joiner, every amount of lag in turn
+			} else {
+				cases = append(cases, vC17Gen(r))
+			}
 		}
 	}
 	results := make([]vC17Result, len(cases))
